@@ -1,6 +1,7 @@
 package sym
 
 import (
+	"fmt"
 	"go/token"
 	"go/types"
 	"unicode/utf8"
@@ -306,6 +307,10 @@ func (x *Exec) asciiOnly(b *smt.Term) {
 	if b.Hi != nil && b.Hi.IsInt64() && b.Hi.Int64() < 128 {
 		return
 	}
+	if x.merge != nil {
+		x.merge.conds = append(x.merge.conds, x.B.Lt(b, x.B.Int(128)))
+		return
+	}
 	if !x.Branch(x.B.Lt(b, x.B.Int(128))) {
 		x.Assumes["ascii-only"]++
 		x.exit("assume", "ascii-only")
@@ -332,10 +337,16 @@ func (x *Exec) stringRangeNext(it *rangeIter) Value {
 		return TupleV{BoolV{B.False}, IntV{B.Int(0)}, IntV{B.Int(0)}}
 	}
 	b := bs[it.Pos]
-	x.asciiOnly(b)
 	p := it.Pos
 	it.Pos++
-	return TupleV{BoolV{B.True}, IntV{B.Int(int64(p))}, IntV{b}}
+	r := b
+	if !(b.Hi != nil && b.Hi.IsInt64() && b.Hi.Int64() < 128) {
+		// a byte >= 0x80 belongs to a multi-byte (or invalid) sequence: the loop sees some rune
+		// >= 0x80 (U+FFFD or a decoded code point). Each such byte is treated as one such rune.
+		big := x.boundedVar(fmt.Sprintf("rune_of_t%d", b.ID), bigInt(128), bigInt(0x10FFFF), "non-ascii rune")
+		r = B.Ite(B.Lt(b, B.Int(128)), b, big)
+	}
+	return TupleV{BoolV{B.True}, IntV{B.Int(int64(p))}, IntV{r}}
 }
 
 var _ = types.Typ
